@@ -272,11 +272,16 @@ def run (op : String) (a : Json) : Option (Except String Json) :=
       let v ← dVal (field a "value")
       let c ← dStr (field a "clazz")
       let cfg : SerCfg := { ignoreDefaultAttributes := (field a "ignore_default_attributes").getBool?.toOption.getD false }
+      -- `prefixes`: the namespaces the abstract writer binds to its prefixes `q0, q1, …` (the harness
+      -- compares generic text that holds such a prefix by the name it denotes)
+      let uris := match generate benv Γ cfg v with
+        | .ok evs => collectUris evs
+        | .error _ => []
       pure <| match (generate benv Γ cfg v).bind (eventsTree (isDatatype Γ)) with
         | .error e => jErr e
         | .ok t =>
           match parseRoot benv Γ (dCfg (field a "config")) c t with
-          | .ok (v', w) => ok (jObj [("value", jVal v'), ("warnings", jNat w)])
+          | .ok (v', w) => ok (jObj [("value", jVal v'), ("warnings", jNat w), ("prefixes", jList jStr uris)])
           | .error e => jErr e
   | "bind.ctxF1" => some do
       -- fragment F1 of C01 (`Xs.Bind.F1.ctxF1`) evaluated on an exported universe
